@@ -29,6 +29,8 @@ RULE = ("data (empty, all 1-byte, sampled 2-byte, runs, zero groups, random/stru
         "ASCIIHex / ASCII85 / RunLength in random conforming spellings (case, the six white-space bytes anywhere, odd digit count, z, "
         "every tail length, literal/repeat partitions, with and without EOD); PNG predictors 10..15 with a filter type per row and TIFF "
         "predictor 2 over colours 1..4 x bits 1,2,4,8,16 x columns 1..17 behind Flate (zlib or raw framing) or LZW (EarlyChange 0/1); "
+        "raw deflate streams whose first two bytes pass the zlib header test (first block stored with chosen padding bits and LEN, then stored "
+        "or Huffman blocks; tools/oracle/codecs.py deflate_raw_zlib_lookalike, cross-checked with python's inflater), alone and behind hex / a85; "
         "chains of up to 3 filters; the same chains named by a stream dictionary (name or array, DecodeParms dictionary or array with nulls) "
         "read through Stream::data; every encoding also truncated and corrupted (judged only by: no PANIC/ABORT/TIMEOUT). "
         "Expected value = the data the reference encoder started from. non-trivial = at least 2 payload bytes; distinct by (mode, fields)")
@@ -134,6 +136,52 @@ def random_stage(n, rng, kinds=("hex", "a85", "rle", "flate", "lzw")):
     rb = row_len_for(n, rng) if n else rng.randint(1, 9)
     colors, bpc, cols = geom_for(rb, rng)
     return Stage(name, pred, colors, cols, bpc, early, raw)
+
+
+def lookalike_cases(rng, tier):
+    """Flate in raw framing whose first two bytes pass the zlib header test (RFC 1950 2.2): a conforming raw deflate stream may
+    begin so (a stored block's padding bits are free), the zlib attempt then fails only inside the body, and the data must
+    still decode as raw deflate.  Streams by the spec-side writer C.deflate_raw_zlib_lookalike, checked here against python's
+    raw inflater (= the payload) and python's zlib reader (= error) before they are used; oracle table kind `r` as for every
+    raw-framing case."""
+    n = 40 if tier == "quick" else 800
+    made = 0
+    for i in range(4 * n):
+        if made >= n:
+            break
+        ln = rng.choice([29, 1, 2, 30, 61, 92, 255, 256, 257, 300, 1000, rng.randint(1, 600), rng.randint(1, 70000 if i % 10 == 0 else 3000)])
+        d = bytes(rng.randrange(256) for _ in range(ln)) if rng.random() < 0.6 else bytes(rng.choice(b"BT /F1 12 Tf (ab) Tj ET\n") for _ in range(ln))
+        if i % 4 == 0:
+            st = random_stage(len(d), rng, kinds=("flate",))
+        else:
+            st = Stage("flate")
+        st.raw = True
+        mid = predict(d, st.pred, st.colors, st.bpc, st.cols, rng)
+        tail = rng.choice(["stored", "stored", "huffman"])
+        e = C.deflate_raw_zlib_lookalike(mid, rng, tail)
+        if e is None or not C.zlib_header_like(e[0], e[1]):
+            continue
+        if zlib.decompressobj(-15).decompress(e) != mid:
+            raise AssertionError("raw-deflate writer: python's inflater disagrees")
+        try:
+            zlib.decompress(e)
+            continue                      # (chance) the body also parses as zlib data
+        except zlib.error:
+            pass
+        made += 1
+        stages, table, cur = [st], [(b"r", e, b"K" + mid)], e
+        if i % 3 == 0:                    # behind a text filter
+            o = Stage(rng.choice(["hex", "a85"]))
+            cur, _ = o.encode(e, rng)
+            stages.insert(0, o)
+        yield chain_case(stages, cur, table, d, tags=["raw-zlib-lookalike", "tail-" + tail, "fdict-bit" if e[1] & 0x20 else "no-fdict-bit",
+                                                      "pred%d" % st.pred])
+    # the analysis' example: 08 1D 00 E2 FF + 29 bytes + an empty final stored block
+    d = b"A" * 29
+    e = C.deflate_stored_block(d, False, 1) + C.deflate_stored_block(b"", True, 0)
+    assert e[:5] == bytes([0x08, 0x1D, 0x00, 0xE2, 0xFF]) and zlib.decompressobj(-15).decompress(e) == d
+    st = Stage("flate", raw=True)
+    yield chain_case([st], e, [(b"r", e, b"K" + d)], d, tags=["raw-zlib-lookalike", "fixed"])
 
 
 def table_fields(table):
@@ -410,6 +458,8 @@ def generate(rng, tier):
             stages, e, table = build_chain(d, rng.choice([0, 1, 1, 2, 2, 3]), rng)
             yield stream_case(stages, e, table, d, rng)
     for c in geometry_cases(rng, tier):
+        yield c
+    for c in lookalike_cases(rng, tier):
         yield c
     # every RunLength header value 0..255 followed by enough / not enough data
     for h in range(256):
